@@ -68,6 +68,7 @@ func main() {
 	genWriter(repo, out, ps)
 	genProcess(repo, out, ps)
 	genStore(repo, out, ps)
+	genRuntimeFacts(repo, out, ps)
 }
 
 // ---------------------------------------------------------------------------- lock facts
